@@ -126,6 +126,25 @@ def Map.retainFusedOut (m : Map) (p : Pred) (fuse : Nat) (o : Orc) : Except Faul
   | .error f => .error f
   | .ok (m', cost) => .ok (m', { cost := cost }, decide (fuse < o.calls.length))
 
+/-- `drain_filter(f)` pulled to the end, `f` panicking on entering its `fuse`-th call.  The visits
+    before it completed (matching elements were handed out; they are dropped by the unwinding with
+    whatever collected them); the element `f` panicked on is left as it was — hashbrown's iterator
+    had already moved past it; the unwinding then drops the `DrainFilter`, whose destructor keeps
+    draining with the (now working) closure: every *other* remaining matching element is removed
+    and dropped. -/
+def Map.drainFilterFusedOut (m : Map) (p : Pred) (fuse : Nat) (o : Orc) : Except Fault (Map × Out × Bool) :=
+  if !Map.iterOrderOk m o.calls then .error (.oracle "drain_filter: visiting order is not main-then-old")
+  else
+    let nMain := m.main.ents.length
+    match Map.drainFilterLoop p nMain (o.calls.take fuse) 0 m o.empt none [] {} with
+    | .error f => .error f
+    | .ok (m1, ys1, c1, _) =>
+      let used := (ys1.filter (fun e => (m.main.find? e.k).isSome)).length
+      match Map.drainFilterLoop p nMain (o.calls.drop (fuse + 1)) (fuse + 1) m1 (o.empt - used) none [] {} with
+      | .error f => .error f
+      | .ok (m2, ys2, c2, _) =>
+        .ok (m2, { cost := c1 + c2 + { dropped := idsOf ys1 ++ idsOf ys2 } }, decide (fuse < o.calls.length))
+
 /-- `entry(k)` then `replace_entry_with(f)` on the occupied entry, `f` panicking: the element was
     taken out of its bucket for `f` and is dropped by the unwinding, with the key handed to `entry`. -/
 def Map.replaceFusedOut (m : Map) (k kid : Nat) (o : Orc) : Except Fault (Map × Out × Bool) :=
